@@ -229,5 +229,145 @@ theorem iterateBoth_regionOf (X : Axes) (hX : AxPos X) (s c0 : Int) (i : Nat) :
       rw [e5, ih hX.tail, stepI_eq]
       push_cast; ring
 
+/-! ### the axes of a concrete call -/
+
+/-- the axes of a call, last axis first -/
+def axesOf (ashape fshape : List Nat) : Axes := (ashape.zip fshape).reverse
+
+theorem axesOf_fst (ashape fshape : List Nat) (hlen : ashape.length = fshape.length) :
+    (axesOf ashape fshape).map Prod.fst = ashape.reverse := by
+  unfold axesOf
+  rw [List.map_reverse, List.map_fst_zip (by omega)]
+
+theorem axesOf_pos (ashape fshape : List Nat) (ha : ∀ a ∈ ashape, 0 < a) (hf : ∀ f ∈ fshape, 0 < f) :
+    AxPos (axesOf ashape fshape) := by
+  intro x hx
+  unfold axesOf at hx
+  rw [List.mem_reverse] at hx
+  obtain ⟨a, f⟩ := x
+  have := List.of_mem_zip hx
+  exact ⟨ha a this.1, hf f this.2⟩
+
+theorem offsetsSize_eq (ashape fshape : List Nat) :
+    offsetsSize ashape fshape = radProd nReg (axesOf ashape fshape) := by
+  unfold axesOf
+  rw [radProd_reverse]
+  induction ashape generalizing fshape with
+  | nil => simp [offsetsSize, radProd]
+  | cons a as ih =>
+    cases fshape with
+    | nil => simp [offsetsSize, radProd]
+    | cons f fs =>
+      simp only [offsetsSize, List.zip_cons_cons, radProd, nReg, nRegions, ih fs]
+
+theorem regionOf_zero (X : Axes) : regionOf X 0 = 0 := by
+  induction X with
+  | nil => rfl
+  | cons x X ih =>
+    obtain ⟨a, f⟩ := x
+    simp [regionOf, regionIdx_zero, ih]
+
+theorem zeros_reverse {α : Type} (l : List α) :
+    (l.reverse.map fun _ => (0 : Int)) = l.map fun _ => (0 : Int) := by
+  simp [List.map_const']
+
+/-- the state of the walk after `n` calls of `iterate_both`: the array iterator is at the position
+    with flat index `n` and the table pointer at `size × (region of that position)` -/
+theorem stateAfter_eq (m : Mode) (ashape fshape : List Nat) (fp : Array Bool)
+    (hlen : ashape.length = fshape.length)
+    (ha : ∀ a ∈ ashape, 0 < a) (hf : ∀ f ∈ fshape, 0 < f) (n : Nat) :
+    stateAfter (mkFIter m ashape fshape fp) ashape n =
+      { posRev := digits id natDig ashape.reverse n,
+        cur := ((footprintSize fshape fp : Nat) : Int) *
+                 ((regionOf (axesOf ashape fshape) n : Nat) : Int) } := by
+  induction n with
+  | zero =>
+    simp only [stateAfter, initState, regionOf_zero]
+    rw [digits_zero id natDig ashape.reverse (fun _ _ => rfl), zeros_reverse]
+    simp
+  | succ n ih =>
+    simp only [stateAfter, ih, step]
+    have hits : (mkFIter m ashape fshape fp).its =
+        axLE ((footprintSize fshape fp : Nat) : Int) (axesOf ashape fshape) := by
+      simp only [mkFIter, initFilterOffsets, initFilterIterator, initAxes_reverse, axesOf]
+    rw [hits, itOdo _ (fun a h => ha a (List.mem_reverse.mp h))]
+    congr 1
+    have := iterateBoth_regionOf (axesOf ashape fshape) (axesOf_pos ashape fshape ha hf)
+      ((footprintSize fshape fp : Nat) : Int) 0 n
+    rw [axesOf_fst ashape fshape hlen, Int.zero_add, Int.zero_add] at this
+    exact this
+
+/-! ### `init_filter_offsets`: the structure of the table -/
+
+/-- filter flat indices of the footprint elements, in the order they are stored -/
+def fpIdx (fshape : List Nat) (fp : Array Bool) : List Nat :=
+  (List.range (shapeSize fshape)).filter fun kk => fp.getD kk false
+
+/-- `coordinates` (last axis first) when the `kk` loop is at filter element `k` -/
+def digC (fshape : List Nat) (k : Nat) : List Int := digits id natDig fshape.reverse k
+
+/-- the offsets stored for one region, computed at `position = pR.reverse` -/
+def regionEntries (m : Mode) (ashape fshape : List Nat) (fp : Array Bool) (pR : List Int) : List Entry :=
+  (fpIdx fshape fp).map fun k => entry m ashape fshape (digC fshape k).reverse pR.reverse
+
+theorem regionEntries_length (m : Mode) (ashape fshape : List Nat) (fp : Array Bool) (pR : List Int) :
+    (regionEntries m ashape fshape fp pR).length = footprintSize fshape fp := by
+  simp [regionEntries, fpIdx, footprintSize]
+
+theorem kkLoop_spec (m : Mode) (ashape fshape : List Nat) (fp : Array Bool)
+    (hf : ∀ f ∈ fshape, 0 < f) (pR : List Int) (n kk : Nat) :
+    kkLoop m ashape fshape fp pR n kk (digC fshape kk) =
+      (((List.range' kk n).filter fun k => fp.getD k false).map
+          (fun k => entry m ashape fshape (digC fshape k).reverse pR.reverse),
+       digC fshape (kk + n)) := by
+  induction n generalizing kk with
+  | zero => simp [kkLoop]
+  | succ n ih =>
+    have hodo : odoRev coordSucc fshape.reverse (digC fshape kk) = digC fshape (kk + 1) :=
+      coordOdo _ (fun f h => hf f (List.mem_reverse.mp h)) kk
+    simp only [kkLoop, hodo, ih (kk + 1)]
+    rw [List.range'_succ, List.filter_cons]
+    have e : kk + 1 + n = kk + (n + 1) := by omega
+    by_cases hb : fp.getD kk false = true
+    · simp only [hb, if_true, List.map_cons, e]
+    · simp only [hb, e]; simp
+
+theorem digC_size (fshape : List Nat) (hf : ∀ f ∈ fshape, 0 < f) :
+    digC fshape (0 + shapeSize fshape) = digC fshape 0 := by
+  unfold digC
+  have := digits_radProd id natDig fshape.reverse (fun f h => hf f (List.mem_reverse.mp h))
+  rw [radProd_id, shapeSize_reverse] at this
+  rw [Nat.zero_add, this]
+
+/-- entry `size·L + j` of what the region loop stores is entry `j` of the `L`-th region visited -/
+theorem llLoop_get (m : Mode) (ashape fshape : List Nat) (fp : Array Bool)
+    (ha : ∀ a ∈ ashape, 0 < a) (hf : ∀ f ∈ fshape, 0 < f)
+    (n l L j : Nat) (hL : L < n) (hj : j < footprintSize fshape fp) :
+    (llLoop m ashape fshape fp n (digC fshape 0)
+        (digits nReg repDig (axesOf ashape fshape) l))[footprintSize fshape fp * L + j]? =
+      (regionEntries m ashape fshape fp (digits nReg repDig (axesOf ashape fshape) (l + L)))[j]? := by
+  induction n generalizing l L with
+  | zero => omega
+  | succ n ih =>
+    simp only [llLoop]
+    rw [kkLoop_spec m ashape fshape fp hf, digC_size fshape hf, ← List.range_eq_range']
+    have hodo : odoRev posSucc (ashape.zip fshape).reverse (digits nReg repDig (axesOf ashape fshape) l)
+        = digits nReg repDig (axesOf ashape fshape) (l + 1) :=
+      posOdo (axesOf ashape fshape) (axesOf_pos ashape fshape ha hf) l
+    rw [hodo]
+    have hlen := regionEntries_length m ashape fshape fp (digits nReg repDig (axesOf ashape fshape) l)
+    unfold regionEntries fpIdx at hlen
+    cases L with
+    | zero =>
+      rw [Nat.mul_zero, Nat.zero_add, Nat.add_zero, List.getElem?_append_left (by rw [hlen]; exact hj)]
+      rfl
+    | succ L =>
+      rw [List.getElem?_append_right (by rw [hlen, Nat.mul_add]; omega), hlen]
+      have e1 : footprintSize fshape fp * (L + 1) + j - footprintSize fshape fp
+          = footprintSize fshape fp * L + j := by rw [Nat.mul_add]; omega
+      have e2 : l + (L + 1) = l + 1 + L := by omega
+      rw [e1, e2]
+      exact ih (l + 1) L (by omega)
+
 end FilterIter
 end Mahotas
